@@ -99,13 +99,28 @@ def corrupt_scenarios(rnd, quick):
     for _ in range(260 if quick else 8000):
         ns, slot, blk = rnd.choice(geos)
         s = session.Scn(ns, slot, blk)
-        style = rnd.choice(["headers", "headers", "pair", "pair+table", "random"])
+        style = rnd.choice(["headers", "headers", "pair", "pair+table", "random", "pair-oversize"])
         for i in range(ns):
             if style == "random":
                 s.add("raw %x %s" % (i * slot, bytes(rnd.getrandbits(8) for _ in range(28)).hex()))
             elif rnd.random() < 0.8:
                 s.add("raw %x %s" % (i * slot, rand_header(rnd, slot).hex()))
-        if style.startswith("pair"):
+        if style == "pair-oversize":
+            # a well-formed in-progress pair whose parity header announces more fragments than the slot has room for (single-erasure
+            # layout: (slot - data offset) / size), and a parity status table with as many / more marks than that
+            f, p = rnd.sample(range(ns), 2)
+            sz = rnd.choice([1, 8, 40, 64, 256]); room = (slot - session.DRO) // sz
+            if room >= 1:
+                n = rnd.randint(1, min(room, 40)); capn = min(room, 16384)
+                cnt_p = min(16384, capn + rnd.choice([1, 1, 2, 5, 40]))
+                hi = 0xFFFFFF00
+                for sl, w in ((f, [0, hi, sz, n]), (p, [1, hi + 1, sz, cnt_p])):
+                    s.add("raw %x %s" % (sl * slot, b"".join(x.to_bytes(4, "little") for x in w + [0xFFFFFFFF] * 3).hex()))
+                marks = min(cnt_p, capn + rnd.choice([-1, 0, 1, 1, 2]))
+                if 0 < marks <= 4000:
+                    s.add("raw %x %s" % (p * slot + 0x400, (b"\x33" * marks).hex()))
+                s.add("raw %x %s" % (f * slot + 0x400, bytes(rnd.choice([0xFF, 0x33]) for _ in range(n)).hex()))
+        elif style.startswith("pair"):
             # a well-formed newest in-progress (firmware, parity) pair with adversarial geometry / tables
             f, p = rnd.sample(range(ns), 2)
             sz = rnd.choice([1, 8, 40, 256]); n = rnd.choice([1, 3, 10, 100, 16384]); cnt_p = rnd.choice([1, 3, 30, 2047, 2048, 2049, 3000, 16384])
@@ -119,6 +134,11 @@ def corrupt_scenarios(rnd, quick):
                     # every fragment marked present and stray marks behind the last one (the table is read in 256-byte strides)
                     tb = bytes([0x33]) * (min(n, 600) + rnd.choice([1, 2, 7, 40]))
                 s.add("raw %x %s" % (f * slot + 0x400, tb.hex()))
+                if rnd.random() < 0.5:
+                    # the single-erasure back-end keeps a status table in the parity slot as well: more marks than the slot has room
+                    # for parity fragments / than the header announces
+                    k = rnd.choice([2, 3, 7, 8, 31, 40, 300])
+                    s.add("raw %x %s" % (p * slot + 0x400, bytes(0x33 if rnd.random() < 0.9 else 0xFF for _ in range(k)).hex()))
                 mo = cnt_p * sz
                 if 0x400 + mo + 64 < slot:
                     s.add("raw %x %s" % (p * slot + 0x400 + mo, bytes(rnd.choice([0xFF, 0xFE, 0x00, 0x7F]) for _ in range(64)).hex()))
@@ -153,6 +173,28 @@ def corrupt_scenarios(rnd, quick):
         for c in calls: s.add(c)
         scns.append(s)
     return scns
+
+
+def naive_corrupt_part(chk, scns):
+    """the corrupt-flash scenarios on the single-erasure back-end (calls the V1 driver of the model knows)"""
+    from . import v1
+    keep = {"bl", "hdrs", "recover", "cancel", "start", "seg", "done", "raw", "drop"}
+    sub = []
+    for s in scns:
+        t = session.Scn(s.ns, s.slot, s.blk); t.ops = [o for o in s.ops if o.split()[0] in keep]; t.meta = s.meta
+        sub.append(t)
+    lines, impl, outs = v1.run(chk, sub, "naive", stream="naive-corrupt")
+    nt, dist = [], {"panics": 0}
+    for s, l, raw, out in zip(sub, lines, impl, outs):
+        if len(out) != len(s.ops):
+            chk.failures.append(core.Failure("harness produced no / truncated result (crash or hang)", "session", "naive", l, raw[-300:], key="crash")); break
+        for (h, lg), op in zip(out, s.ops):
+            if h == "panic":
+                dist["panics"] += 1
+                chk.failures.append(core.Failure("[single-erasure back-end] %s panics on corrupt flash contents" % op.split()[0], "session", "naive", l, raw[:1500], key="c17")); break
+        nt.append(l)
+        if len(chk.failures) > 10: break
+    chk.note_cases("naive-corrupt", lines, nt, sample_n=1, dist=dist)
 
 
 def naive_index_part(chk, rnd):
@@ -214,9 +256,10 @@ def run(chk):
             nt.append(l)
             if len(chk.failures) > 10: break
         chk.note_cases("session-corrupt[%s]" % variant, lines, nt, sample_n=1, dist=dist)
+    naive_corrupt_part(chk, scns)
     naive_index_part(chk, random.Random(chk.seed + 17))
     return chk.finish(level="proof",
-        rule="naive-index: the single-erasure back-end (default and force-full-r) with indices 0, count+capacity+1, +2, 2^14, 2^16, 2^32-1, random beyond the range at random positions of V1 deliveries (rejected, nothing programmed, peeling outcome unchanged); session-index: a fragment with index in {0, 1, n, n+1, 2^14, 2^16, 2^32-1, n+1240005543 (u32 seed overflow), random} (consistent payload for legal indices) inserted at every position (sampled) of delivery scenarios, "
+        rule="naive-corrupt: the corrupt-flash scenarios (below) on the single-erasure back-end, incl. parity-slot status tables with more marks than the slot has room for; naive-index: the single-erasure back-end (default and force-full-r) with indices 0, count+capacity+1, +2, 2^14, 2^16, 2^32-1, random beyond the range at random positions of V1 deliveries (rejected, nothing programmed, peeling outcome unchanged); session-index: a fragment with index in {0, 1, n, n+1, 2^14, 2^16, 2^32-1, n+1240005543 (u32 seed overflow), random} (consistent payload for legal indices) inserted at every position (sampled) of delivery scenarios, "
              "overflow-checked, release and force-full-r builds; session-corrupt: per-slot headers from legal / boundary / junk field values, random bytes, a well-formed newest pair with adversarial counts (parity count 2047..16384) and garbage status tables / matrix diagonals, "
              "slot sizes 17664 B .. 1 MiB, then every public call in random order; non-trivial = every case; distinct by case text",
         trusted=core.TRUSTED_COMMON + ["C17: 64-bit usize (the host); the 32-bit usize of the real target cannot be run here",
